@@ -1,0 +1,14 @@
+//go:build verif
+
+package pow
+
+// Verification-only exports (build tag verif). Read-only wrappers around unexported
+// functions so an external harness can compare them with a formal model.
+
+func TargetByDifficultyVerif(difficulty uint64) [8]byte {
+	return getTargetByDifficulty(difficulty)
+}
+
+func GreaterDifficultyVerif(x, y []byte) bool {
+	return greaterDifficulty(x, y)
+}
